@@ -117,16 +117,21 @@ Fixpoint lookup_pk (k : Z) (rows : list (Z * list ver)) : list ver :=
   | [] => []
   | (k', vs) :: r => if (k =? k')%Z then vs else lookup_pk k r
   end.
-Fixpoint c_add (k : Z) (v : ver) (rows : list (Z * list ver)) : list (Z * list ver) :=
+(* add a version to primary key k: on top of the existing versions, or as a new key in key order *)
+Fixpoint c_upd (k : Z) (v : ver) (rows : list (Z * list ver)) : option (list (Z * list ver)) :=
+  match rows with
+  | [] => None
+  | (k', vs) :: r =>
+      if (k =? k')%Z then Some ((k', v :: vs) :: r)
+      else match c_upd k v r with Some r' => Some ((k', vs) :: r') | None => None end
+  end.
+Fixpoint c_ins (k : Z) (v : ver) (rows : list (Z * list ver)) : list (Z * list ver) :=
   match rows with
   | [] => [(k, [v])]
-  | (k', vs) :: r =>
-      match (k ?= k')%Z with
-      | Eq => (k', v :: vs) :: r
-      | Lt => (k, [v]) :: rows
-      | Gt => (k', vs) :: c_add k v r
-      end
+  | (k', vs) :: r => if (k <? k')%Z then (k, [v]) :: rows else (k', vs) :: c_ins k v r
   end.
+Definition c_add (k : Z) (v : ver) (rows : list (Z * list ver)) : list (Z * list ver) :=
+  match c_upd k v rows with Some r => r | None => c_ins k v rows end.
 Definition vers_at (ts : N) (vs : list ver) : list ver := filter (fun v => v_tx v <=? ts) vs.
 
 (* table contents read through the primary index: live newest versions *)
@@ -398,7 +403,7 @@ Definition do_upsert (g : cfg) (fx : fixes) (c : cstate) (t : txs) (k : Z) (nv n
 
 (* ---------- statements ---------- *)
 Inductive imode := MInsert | MUpsert | MDoNothing | MDoUpdate (colv : bool) (x : val).
-Inductive wher := WAll | WId (k : Z) | WVeq (z : Z).
+Inductive wher := WAll | WId (k : Z).
 Inductive stmt :=
 | SIns (m : imode) (rows : list (option val * val * val))   (* id (None: not specified), v, s *)
 | SUpd (w : wher) (colv : bool) (x : val)                    (* UPDATE t SET v|s = x WHERE w *)
@@ -440,12 +445,11 @@ Definition ins_row (g : cfg) (fx : fixes) (c : cstate) (m : imode) (t : txs) (r 
   end.
 
 Definition where_range (w : wher) : option Z * option Z :=
-  match w with WId k => (Some k, Some k) | _ => (None, None) end.
+  match w with WId k => (Some k, Some k) | WAll => (None, None) end.
 Definition where_ok (w : wher) (kr : Z * row) : bool :=
   match w with
   | WAll => true
   | WId k => (fst kr =? k)%Z
-  | WVeq z => match r_v (snd kr) with VInt y => (y =? z)%Z | _ => false end
   end.
 Definition scan_where (c : cstate) (t : txs) (w : wher) : list (Z * row) * txs :=
   let (rs, t') := scan c t (fst (where_range w)) (snd (where_range w)) in
